@@ -264,6 +264,8 @@ def handle (s : St) (line : String) : St :=
         amount := if am == "-" then none else some (toInt! am) }
       let s := s.count "cmp:iter"
       let s := s.spec "C15" "noPanic" (res != "panic") line
+      -- C15 "always ends": the consumer of an unbuffered channel that writes to the log between receives
+      let s := s.spec "C15" "ends" (res != "hang") line
       match iterator rep.log o with
       | .errLTE => if res == "err:lte" then s else s.diff "iter.result" "err:lte" res
       | .errLT => if res == "err:lt" then s else s.diff "iter.result" "err:lt" res
@@ -410,6 +412,7 @@ def handle (s : St) (line : String) : St :=
     let s := s.count "cmp:keyed-history"
     let s := s.spec "C08" "readBackLinks" true
     s.spec "C18" "noStoredLinks" (linked == "0") s!"{linked} of {blocks} entry blocks carry links"
+  | ["X", "abort"] => s
   | ["X", "begin"] => { s with inExchange := true, lastOp := "exchange" }
   | ["X", "end"] =>
     -- C01: after a complete exchange all replicas of one id agree
